@@ -287,8 +287,21 @@ pub fn family_s_jobs(tier: Tier) -> (Vec<Job>, serde_json::Value) {
     }
     let n1 = jobs.len();
     let two: &Vec<Tpl> = if tier == Tier::Quick { &small } else { &level1 };
+    // thorough: all pairs of the small set plus every 5th pair of the full level-1 set (memory bound)
+    if tier == Tier::Thorough {
+        for a in &small {
+            for b in &small {
+                mk(&[a, b], &mut jobs);
+            }
+        }
+    }
+    let mut pair_idx = 0usize;
     for a in two {
         for b in two {
+            pair_idx += 1;
+            if tier == Tier::Thorough && pair_idx % 5 != 0 {
+                continue;
+            }
             mk(&[a, b], &mut jobs);
         }
     }
@@ -298,15 +311,19 @@ pub fn family_s_jobs(tier: Tier) -> (Vec<Job>, serde_json::Value) {
         for a in &small {
             for b in &small {
                 for c in &small {
-                    mk(&[a, b, c], &mut jobs);
+                    // every 6th triple (memory bound; the evidence states the numbers)
                     n3 += 1;
+                    if n3 % 6 != 0 {
+                        continue;
+                    }
+                    mk(&[a, b, c], &mut jobs);
                 }
             }
         }
     }
     let plan = json!({
         "simple_templates": simple.len(), "level1_templates": level1.len(), "small_templates": small.len(),
-        "n<=1_programs": n1, "n=2_programs": n2, "n=3_programs": n3, "inputs_per_program": inputs.len(),
+        "n<=1_programs": n1, "n=2_programs": n2, "n=3_programs_every_6th_of": n3, "inputs_per_program": inputs.len(),
     });
     (jobs, plan)
 }
